@@ -75,7 +75,8 @@ def arg_assign(rng, opts):
             out.append("daemon=true")
         elif o in ("hook", "hooks"):
             n = rng.range(1, 3)
-            out.append("hook=%s" % ",".join(rng.choice(["argdefault.sh", "peer_connected:a1.sh", "ev3:a2.sh", "vpn_started:a:b", "plain2"]) for _ in range(n)))
+            out.append("hook=%s" % ",".join(rng.choice(["argdefault.sh", "peer_connected:a1.sh", "ev3:a2.sh", "vpn_started:a:b", "plain2",
+                                                       "peer_connected:logger -t vpn connected%2Cup".replace(" ", "_"), "x.sh%2Cy"]) for _ in range(n)))
     # de-duplicate the hook key (hook and hooks share --hook)
     seen, res = set(), []
     for kv in out:
